@@ -200,7 +200,8 @@ def run_quiet(prop, scenario):
                 for k_, name_ in (('reuse_buffers', 'caller_refills_its_buffers_in_place'), ('idem_config', 'same_configuration_issued_again_mid_stream'),
                                   ('explained_before', 'object_explained_another_log_before'), ('reconf', 'object_used_under_another_sampling_period_before'),
                                   ('surplus_named', 'data_set_has_columns_named_like_assertions'),
-                                  ('late_config', 'object_configured_after_parse')):
+                                  ('late_config', 'object_configured_after_parse'),
+                                  ('const_bounds', 'interval_bounds_as_named_constants')):
                     if _M.ENV_FIRED.get(k_):
                         res.faults[name_] += 1
             res.cpu_s = time.process_time() - cpu0
@@ -269,6 +270,8 @@ def _draw_env(prop, rng, scenario):
             env['surplus_named'] = rng.randrange(1 << 30)
         if rng.random() < 0.15 and 'late_config' not in out:
             env['late_config'] = True
+        if rng.random() < 0.08 and 'const_bounds' not in out:
+            env['const_bounds'] = rng.randrange(1 << 30)
         if env:
             scenario['_env'] = env
 
